@@ -295,7 +295,8 @@ class RealFloat___add__(Contract):
     def post(self, other, result):
         r = result
         fin = finite_operand(other)
-        out = {}
+        # a non-float operand always gives a RealFloat (a float result only absorbs a float NaN / infinity)
+        out = {'result_type': cls_name(r) == 'RealFloat' if cls_name(other) != 'float' else True}
         if cls_name(other) == 'float':
             # NaN / infinity absorb the finite addend (IEEE 754 6.1, 6.2)
             out.update({
@@ -332,7 +333,8 @@ class RealFloat___mul__(Contract):
     def post(self, other, result):
         r = result
         fin = finite_operand(other)
-        out = {}
+        # a non-float operand always gives a RealFloat (a float result only absorbs a float NaN / infinity)
+        out = {'result_type': cls_name(r) == 'RealFloat' if cls_name(other) != 'float' else True}
         if cls_name(other) == 'float':
             out.update({
                 'nan': implies(f64_isnan(other), cls_name(r) == 'float' and f64_isnan(r)),
@@ -371,7 +373,8 @@ class RealFloat___radd__(Contract):
     def post(self, other, result):
         r = result
         fin = finite_operand(other)
-        out = {}
+        # a non-float operand always gives a RealFloat (a float result only absorbs a float NaN / infinity)
+        out = {'result_type': cls_name(r) == 'RealFloat' if cls_name(other) != 'float' else True}
         if cls_name(other) == 'float':
             out.update({
                 'nan': implies(f64_isnan(other), cls_name(r) == 'float' and f64_isnan(r)),
@@ -405,7 +408,8 @@ class RealFloat___sub__(Contract):
     def post(self, other, result):
         r = result
         fin = finite_operand(other)
-        out = {}
+        # a non-float operand always gives a RealFloat (a float result only absorbs a float NaN / infinity)
+        out = {'result_type': cls_name(r) == 'RealFloat' if cls_name(other) != 'float' else True}
         if cls_name(other) == 'float':
             out.update({
                 'nan': implies(f64_isnan(other), cls_name(r) == 'float' and f64_isnan(r)),
@@ -443,7 +447,8 @@ class RealFloat___rsub__(Contract):
     def post(self, other, result):
         r = result
         fin = finite_operand(other)
-        out = {}
+        # a non-float operand always gives a RealFloat (a float result only absorbs a float NaN / infinity)
+        out = {'result_type': cls_name(r) == 'RealFloat' if cls_name(other) != 'float' else True}
         if cls_name(other) == 'float':
             out.update({
                 'nan': implies(f64_isnan(other), cls_name(r) == 'float' and f64_isnan(r)),
@@ -478,7 +483,8 @@ class RealFloat___rmul__(Contract):
     def post(self, other, result):
         r = result
         fin = finite_operand(other)
-        out = {}
+        # a non-float operand always gives a RealFloat (a float result only absorbs a float NaN / infinity)
+        out = {'result_type': cls_name(r) == 'RealFloat' if cls_name(other) != 'float' else True}
         if cls_name(other) == 'float':
             out.update({
                 'nan': implies(f64_isnan(other), cls_name(r) == 'float' and f64_isnan(r)),
